@@ -66,7 +66,9 @@ def make_calls(ctx: Ctx, d: specgen.Doc) -> list[dict]:
                 elif kind == "sse":
                     n = rng.randint(0, 3)
                     items = [instgen.instance(rng, r["schema"], d.sexp, "random") for _ in range(n)]
-                    text = "".join(f"data: {json.dumps(it)}\n\n" for it in items)
+                    sp = rng.choice(["", " "])          # the space after the colon is optional in SSE
+                    nl = rng.choice(["\n", "\r\n"])
+                    text = "".join(f"data:{sp}{json.dumps(it)}{nl}{nl}" for it in items)
                     raw = text.encode()
                     cut = sorted(rng.sample(range(1, max(2, len(raw))), min(2, max(0, len(raw) - 1)))) if len(raw) > 2 else []
                     chunks = [raw[a:b] for a, b in zip([0] + cut, cut + [len(raw)])]
